@@ -172,6 +172,9 @@ func (g *Gen) genHistory(k cfgKey, maxLen int, wild bool) string {
 			}
 			if k.name == "ISM2400" && !wild {
 				f = 2400000000 + uint32(g.r.Intn(418))*200000
+				if g.r.Bool() {
+					f = 2400000000 + uint32(g.r.Intn(417501))*200 // the 200 Hz grid NewChannelReq defines from 2.4 GHz upwards
+				}
 			}
 			if wild && g.r.Chance(1, 8) {
 				f = g.r.U32()
@@ -367,6 +370,11 @@ func genC15(g *Gen) {
 		for j := 0; j < 3; j++ {
 			g.addf("bq %s %s chan %d", k, hist, g.r.Pick(-1, 0, cnt-1, cnt, g.r.Intn(cnt+2), -1<<31, 1<<31-1))
 		}
+		// every channel the band reports, carried by a NewChannelReq (the last six: custom channels are appended)
+		for j := 1; j <= 6 && j <= cnt; j++ {
+			g.addf("bq %s %s chanmac %d", k, hist, cnt-j)
+		}
+		g.addf("bq %s %s chanmac %d", k, hist, g.r.Pick(-1, 0, cnt, 255, 256))
 		s := snapshotOf(k)
 		f := uint32(g.r.Intn(16777216)) * 100
 		if len(s.UplinkChannels) > 0 && g.r.Bool() {
